@@ -168,7 +168,27 @@ func genC15(seed uint64, tier Tier) *Case {
 	g.smallDocs = true
 	c.Knobs.FracSize = uint64(g.r.Range(500, 2500))
 	c.Knobs.TotalSize = 5*c.Knobs.FracSize + uint64(g.r.Range(8000, 20000))
+	if g.r.Bool(0.4) {
+		// tight: retention reaches the fraction that is still being sealed (but never the one being written:
+		// a round appends at most 8 bulks of at most 6 small documents between two maintenance ticks)
+		c.Knobs.TotalSize = c.Knobs.FracSize + uint64(g.r.Range(30000, 40000))
+	}
 	c.Knobs.MaintenanceDelayMs = []int{20, 50, 200}[g.r.Intn(3)]
+	// tight-sealing (a fifth of the runs): the limit holds exactly one full fraction plus one bulk, seals are
+	// slow (10 ms per fsync, maintenance every 20 ms) and bulks are uniform, so the fraction that has just been
+	// rotated out is retired while it is still being sealed (proxyFrac.Suicide waits for the seal, then
+	// deletes a fraction that owns .docs and .sdocs at once). At most one bulk fits between two maintenance
+	// passes, so the fraction under the writer never exceeds the limit.
+	veryTight := g.r.Bool(0.2)
+	if veryTight {
+		c.Knobs.SyncLatencyUs = 10000
+		c.Knobs.MaintenanceDelayMs = 20
+		c.Knobs.StepCostNs = 0
+		c.Knobs.ZstdLevel = 1
+		c.Knobs.SkipSortDocs = false
+		c.Knobs.FracSize = 3000 // rotation looks at the docs file only; docs+meta is about 1.6x that
+		c.Knobs.TotalSize = 8000 // retention counts docs+meta+index: a fraction is rotated out at about 7.2 KB (six uniform bulks), the limit holds it but not it plus one more bulk
+	}
 	c.Oracles.Retention = true
 	c.Mode = "cold" // a mature hot store refuses searches that reach below its oldest fraction; retention itself is the same
 	c.Steps = append(c.Steps, Step{Kind: "start"})
@@ -188,18 +208,33 @@ func genC15(seed uint64, tier Tier) *Case {
 			}
 			f.ImageMode = []string{"", "", "all", "none"}[g.r.Intn(4)]
 			c.Faults = append(c.Faults, f)
-			c.Steps = append(c.Steps, Step{Kind: "arm", Group: round})
 		}
+		c.Steps = append(c.Steps, Step{Kind: "arm", Group: round})
 		for i := 0; i < nb; i++ {
+			if veryTight {
+				// a burst of uniform bulks (about 1.2 KB each on disk) that fills several fractions
+				for k := 0; k < g.r.Range(6, 14); k++ {
+					op := Op{Kind: "bulk"}
+					g.nextBulk++
+					op.Bulk = g.nextBulk
+					for n := 0; n < 3; n++ {
+						d := g.doc(g.nowMs + uint64(g.r.Intn(2000)))
+						d.Size = 310
+						d.Toks = []model.Tok{{F: "k0", V: vocab[g.r.Intn(len(vocab))]}, {F: "svc", V: "alpha"}}
+						op.Docs = append(op.Docs, d)
+					}
+					c.Steps = append(c.Steps, seqStep(op))
+				}
+				c.Steps = append(c.Steps, Step{Kind: "sleep", Ms: 100}, Step{Kind: "validate", Label: fmt.Sprintf("r%d.b%d", round, i)})
+				continue
+			}
 			c.Steps = append(c.Steps, seqStep(g.bulk(g.r.Range(1, 6))))
 			if g.r.Bool(0.6) {
 				// observe which fraction serves what, and give maintenance (rotate/seal/retention) time to run
 				c.Steps = append(c.Steps, Step{Kind: "sleep", Ms: int64(g.r.Range(1, 3) * c.Knobs.MaintenanceDelayMs)}, Step{Kind: "validate", Label: fmt.Sprintf("r%d.b%d", round, i)})
 			}
 		}
-		if armed {
-			c.Steps = append(c.Steps, Step{Kind: "disarm"})
-		}
+		c.Steps = append(c.Steps, Step{Kind: "disarm"})
 		switch g.r.Intn(5) {
 		case 0:
 			c.Steps = append(c.Steps, Step{Kind: "stop"})
@@ -438,6 +473,16 @@ func genC03(seed uint64, tier Tier) *Case {
 	c.Steps = append(c.Steps, seqStep(ops...))
 	c.Steps = append(c.Steps, Step{Kind: "validate", Label: "active"})
 	c.Steps = append(c.Steps, Step{Kind: "seal"}, Step{Kind: "validate", Label: "sealed-preloaded"})
+	if g.r.Bool(0.6) {
+		// a second fraction is ingested and sealed in the same process: the first one, still in its freshly
+		// sealed (preloaded) form, must keep answering the same (shared pools/buffers between seals)
+		var more []Op
+		for i := 0; i < g.r.Range(1, 4); i++ {
+			more = append(more, g.bulk(g.bulkSize()))
+		}
+		c.Steps = append(c.Steps, seqStep(more...), Step{Kind: "validate", Label: "sealed+active"}, Step{Kind: "seal"}, Step{Kind: "validate", Label: "two-sealed-preloaded"})
+		c.Oracles.CountsStrict = true
+	}
 	// readers overlapping cache-cleaner ticks
 	var readers [][]Op
 	for r := 0; r < g.r.Range(1, 3); r++ {
